@@ -56,6 +56,11 @@ CLAIMED = {
   "Every chain is executed on the real code (the client over an in-process pipe to an echo server); the recorded trace of stage entries (context marker, message identity), core invocations and returned results must equal the reference interpreter's trace.",
   "Trusted: 30-line reference interpreter. The concurrent clause (shared chain under concurrent requests) is covered only structurally (continuations hold no shared state after the fix); see DESIGN.md.",
   "DESIGN.md §3 C19"),
+ "C13": ("exploration", "seqmc",
+  "exhaustive enumeration of the finite configuration space (client version subsets x server subsets x server behaviours x enforced/not) with a reference function max(client ∩ server)",
+  "All 8.6k cells are executed: a real DialContext and a follow-up request against the real BatchExecutor (default and after SetSupportedProtocolVersions) and scripted servers (ascending, every permutation, unoffered versions, empty list, discovery unsupported); adopted version, failure, membership and the header of the follow-up request are compared with the reference. exhaustive:true.",
+  "Trusted: the 10-line reference. One deterministic exchange per cell (no schedule quantifier in this property).",
+  "DESIGN.md §3 C13"),
 }
 NOT_YET = "check not built yet in this session (planned, see DESIGN.md §3)"
 NA = {}
